@@ -169,9 +169,177 @@ def guessed_case(case):
     return out, ("guessed", bool(f1.get("success")), bool(fk.get("success")))
 
 
+def limits_case(case):
+    """the contact point carries finite limits (measured units, like its
+    value): the fit is still equivalent to the k = 1 fit"""
+    from nanite import model as nmodel
+    out = []
+    mk, seg, k, mode = case["model"], case["segment"], case["k"], \
+        case["range"]
+    p = POWER[mk]
+
+    def viol(clause, wit, detail):
+        out.append(V(PROP, clause, site="cp-limits:" + mode, witness=wit,
+                     detail=detail, case=case, kind="grid"))
+    E = {"hertz_para": 3000.0, "hertz_cone": 9000.0,
+         "hertz_pyr3s": 40000.0}[mk]
+    lo, hi = CP_FAR - case["halfwidth"], CP_FAR + case["halfwidth"]
+    res = {}
+    for kk in (1.0, k):
+        tr = synth.truth_params(mk, E=E, contact_point=CP_FAR,
+                                baseline=4e-11)
+        idnt = synth.make_curve(mk, tr, n_app=160, n_ret=140, x_start=1.0e-6,
+                                depth=DEPTH, noise=0.0, seed=5)
+        P = nmodel.models_available[mk].get_parameter_defaults()
+        P["contact_point"].set(value=CP_FAR + 3e-8, min=lo, max=hi)
+        P["E"].set(value=1.2 * E * kk ** (-p))
+        P["baseline"].set(value=2e-11)
+        kw = dict(model_key=mk, params_initial=P, segment=seg, gcf_k=kk,
+                  weight_cp=0)
+        if mode == "whole":
+            kw.update(range_type="absolute", range_x=[0, 0])
+        else:
+            kw.update(range_type="relative cp", range_x=[-6e-7, 3e-7])
+        ops.install_counters()
+        ops.Counters.passes = []
+        exc = None
+        try:
+            idnt.fit_model(**kw)
+        except BaseException as e:
+            if isinstance(e, (KeyboardInterrupt, SystemExit, MemoryError)):
+                raise
+            exc = e
+        passes, ops.Counters.passes = ops.Counters.passes, None
+        res[kk] = (idnt, passes, exc)
+    (i1, p1, e1), (ik, pk, ek) = res[1.0], res[k]
+    if e1 is not None or ek is not None:
+        if (e1 is None) != (ek is None):
+            viol("k-invariance", f"k={k:.3g}:raises", f"k=1: {e1!r}, "
+                 f"k={k}: {ek!r}")
+        return out, ("raises",)
+    f1, fk = i1.fit_properties, ik.fit_properties
+    if not f1.get("success") or not fk.get("success"):
+        if f1.get("success") != fk.get("success"):
+            viol("k-invariance", f"k={k:.3g}:success", "success differs")
+        return out, ("unsuccessful",)
+    if pk and (pk[0]["cp0"] is None or not abs(
+            pk[0]["cp0"] - k * (CP_FAR + 3e-8)) <= 4 * np.spacing(CP_FAR)):
+        viol("k-initial-cp", f"k={k:.3g}:pass1", "the first pass starts "
+             f"from contact point {pk[0]['cp0']!r}, expected k x the given "
+             f"value = {k * (CP_FAR + 3e-8)!r} (limits [{lo}, {hi}] are in "
+             "measured units like the value)")
+    q1, qk = f1["params_fitted"], fk["params_fitted"]
+    dcp = abs(qk["contact_point"].value - q1["contact_point"].value) / DEPTH
+    rE = qk["E"].value / (q1["E"].value * k ** (-p))
+    if not dcp <= 1e-7:
+        viol("k-invariance", f"k={k:.3g}:contact_point", "contact point "
+             f"{qk['contact_point'].value!r} vs k=1 "
+             f"{q1['contact_point'].value!r} with limits [{lo}, {hi}]")
+    if not abs(rE - 1) <= 1e-6:
+        viol("k-scaling", f"k={k:.3g}", f"E_k / (E_1 k^-{p}) = {rE!r} "
+             f"with contact-point limits [{lo}, {hi}]")
+    for nm, q in (("k=1", q1), (f"k={k:.3g}", qk)):
+        c = q["contact_point"]
+        if not (lo <= c.value <= hi) or c.min != lo or c.max != hi:
+            viol("k-invariance", f"{nm}:limits", "reported contact point "
+                 f"{c.value!r} with limits [{c.min!r}, {c.max!r}], given "
+                 f"[{lo}, {hi}]")
+    c1 = np.asarray(i1["fit"], dtype=float)
+    ck = np.asarray(ik["fit"], dtype=float)
+    Fmax = np.nanmax(np.abs(np.asarray(ik["force"], dtype=float)))
+    if np.any(np.isnan(c1) != np.isnan(ck)) or \
+            not np.nanmax(np.abs(c1 - ck)) / Fmax <= 1e-6:
+        viol("k-invariance", f"k={k:.3g}:fit", "fit curve differs from "
+             "k = 1")
+    return out, ("limits", len(pk))
+
+
+def fewpoints_case(case):
+    """a fit request whose range holds too few points (unsuccessful fit):
+    the stored initial contact point stays what the caller gave, in
+    measured units, for every k"""
+    from nanite import model as nmodel
+    out = []
+    mk, k, mode = case["model"], case["k"], case["range"]
+
+    def viol(clause, wit, detail):
+        out.append(V(PROP, clause, site="few-points:" + mode, witness=wit,
+                     detail=detail, case=case, kind="grid"))
+    E = {"hertz_para": 3000.0, "hertz_cone": 9000.0,
+         "hertz_pyr3s": 40000.0}[mk]
+    tr = synth.truth_params(mk, E=E, contact_point=CP_FAR, baseline=4e-11)
+    idnt = synth.make_curve(mk, tr, n_app=160, n_ret=140, x_start=1.0e-6,
+                            depth=DEPTH, noise=0.0, seed=5)
+    P = nmodel.models_available[mk].get_parameter_defaults()
+    cp0 = CP_FAR + 3e-8
+    P["contact_point"].set(value=cp0)
+    P["E"].set(value=1.2 * E * k ** (-POWER[mk]))
+    kw = dict(model_key=mk, params_initial=P, gcf_k=k, weight_cp=0)
+    if mode == "absolute":
+        kw.update(range_type="absolute", range_x=[0, 1e-6])   # off the data
+    else:
+        kw.update(range_type="relative cp", range_x=[-2e-10, 2e-10])
+    try:
+        idnt.fit_model(**kw)
+    except BaseException as e:
+        if isinstance(e, (KeyboardInterrupt, SystemExit, MemoryError)):
+            raise
+    fp = idnt.fit_properties
+    first_success = bool(fp.get("success"))
+    stored = fp["params_initial"]["contact_point"].value \
+        if fp.get("params_initial") is not None else None
+    if stored is None or not abs(stored - cp0) <= 2 * np.spacing(cp0):
+        viol("k-initial-cp", f"k={k:.3g}:stored", "after a fit request "
+             f"with too few points the stored initial contact point is "
+             f"{stored!r}, given {cp0!r}")
+    try:
+        back = idnt.get_initial_fit_parameters()["contact_point"].value
+    except BaseException as e:
+        if isinstance(e, (KeyboardInterrupt, SystemExit, MemoryError)):
+            raise
+        back = repr(e)
+    if not isinstance(back, float) or \
+            not abs(back - cp0) <= 2 * np.spacing(cp0):
+        viol("k-initial-cp", f"k={k:.3g}:handed-back",
+             f"get_initial_fit_parameters() hands back contact point "
+             f"{back!r}, given {cp0!r}")
+    # the next fit on the whole segment equals the k = 1 history
+    res = {}
+    for kk, obj in ((k, idnt), (1.0, None)):
+        if obj is None:
+            obj = synth.make_curve(mk, tr, n_app=160, n_ret=140,
+                                   x_start=1.0e-6, depth=DEPTH, noise=0.0,
+                                   seed=5)
+            P1 = nmodel.models_available[mk].get_parameter_defaults()
+            P1["contact_point"].set(value=cp0)
+            P1["E"].set(value=1.2 * E)
+            obj.fit_model(model_key=mk, params_initial=P1, gcf_k=1.0,
+                          weight_cp=0)
+        else:
+            obj.fit_model(range_type="absolute", range_x=[0, 0])
+        res[kk] = obj.fit_properties
+    if res[k].get("success") and res[1.0].get("success"):
+        ck = res[k]["params_fitted"]["contact_point"].value
+        c1 = res[1.0]["params_fitted"]["contact_point"].value
+        rE = res[k]["params_fitted"]["E"].value / (
+            res[1.0]["params_fitted"]["E"].value * k ** (-POWER[mk]))
+        if not abs(ck - c1) / DEPTH <= 1e-6 or not abs(rE - 1) <= 1e-5:
+            viol("k-invariance", f"k={k:.3g}:next-fit", "the fit after the "
+                 f"unsuccessful request: contact point {ck!r} vs {c1!r}, "
+                 f"E_k / (E_1 k^-p) = {rE!r}")
+    elif res[k].get("success") != res[1.0].get("success"):
+        viol("k-invariance", f"k={k:.3g}:next-fit", "the fit after the "
+             "unsuccessful request does not succeed")
+    return out, ("few-points", "first request successful:", first_success)
+
+
 def case_fn(case):
     if case.get("mode") == "guessed":
         return guessed_case(case)
+    if case.get("mode") == "few-points":
+        return fewpoints_case(case)
+    if case.get("mode") == "cp-limits":
+        return limits_case(case)
     out = []
     mk, noisy, seg = case["model"], case["noisy"], case["segment"]
     mode, cp0, k = case["mode"], case["cp0"], case["k"]
@@ -324,6 +492,21 @@ def cases(tier):
                     cs.append({"kind": "grid", "mode": "guessed", "model": mk,
                                "segment": seg, "k": k, "entry": entry,
                                "compare": k in (0.5, 0.6, 2.0)})
+    # fit requests whose range holds too few points
+    for mk in POWER:
+        for k in KS + [1.0]:
+            for rng in ("absolute", "relative"):
+                cs.append({"kind": "grid", "mode": "few-points", "model": mk,
+                           "k": k, "range": rng})
+    # the contact point carries finite limits
+    for mk in POWER:
+        for seg in (0, 1):
+            for k in KS:
+                for rng in ("whole", "relative"):
+                    for hw in (1e-6, 3e-7):
+                        cs.append({"kind": "grid", "mode": "cp-limits",
+                                   "model": mk, "segment": seg, "k": k,
+                                   "range": rng, "halfwidth": hw})
     if tier == "thorough":
         for f in ("fmt-jpk-fd_spot3-0192.jpk-force",
                   "fmt-jpk-fd_single_tilted-baseline-drift-mitotic_"
